@@ -75,8 +75,55 @@ def summaries(g, counter=None, bound=None, bound_const=None, flag_fields=(), slo
         return None
 
     def step(st, n, lab):
-        lo, hi, k, pred, flags, sets, emit, other, comp, empty, bad, pops, pushes, subs, calls = st
+        lo, hi, k, pred, flags, sets, emit, other, comp, empty, bad, pops, pushes, subs, calls, bools = st
         d, v = sw_value(lab)
+        # a branch on a boolean local that was assigned a constant / the predicate result / a mode flag on this path
+        if d is not None and v in (0, 1):
+            d0 = strip(d)
+            par = 0
+            while d0[0] == 'un' and d0[1] == 'Not':
+                d0 = strip(d0[2])
+                par ^= 1
+            if d0[0] == 'local' and d0[1] in dict((b[0], b) for b in bools):
+                b = dict((b[0], b) for b in bools)[d0[1]]
+                val = v ^ par
+                if b[1] == 'c':
+                    if b[2] != val:
+                        return None
+                    d = None
+                elif b[1] == 'p':
+                    pv = val ^ b[2]
+                    if pred is not None and pred != pv:
+                        return None
+                    pred = pv
+                    d = None
+                elif b[1] == 'f':
+                    fv = val ^ b[3]
+                    f = b[2]
+                    if f in dict(sets):
+                        if dict(sets)[f] != fv:
+                            return None
+                    else:
+                        prev = dict(flags).get(f)
+                        if prev is not None and prev != fv:
+                            return None
+                        flags = tuple(sorted(set(flags) | {(f, fv)}))
+                    d = None
+        # a `match` directly on the counter (switch on its value) when the bound is a constant
+        if d is not None and bound_const is not None and is_counter(strip(d)) and strip(d)[0] == 'field':
+            if isinstance(v, int):
+                p0 = v - bound_const - k
+                lo, hi = _meet(lo, hi, p0, p0)
+            elif isinstance(v, tuple) and v and v[0] == 'not':
+                for ex in v[1]:
+                    p0 = ex - bound_const - k
+                    if lo is not None and lo == p0:
+                        lo = p0 + 1
+                    if hi is not None and hi == p0:
+                        hi = p0 - 1
+            if lo is not None and hi is not None and lo > hi:
+                return None
+            d = None
         if d is not None and v in (0, 1):
             c = cmp_of(d)
             if c:
@@ -124,6 +171,24 @@ def summaries(g, counter=None, bound=None, bound_const=None, flag_fields=(), slo
                 pops = min(pops + 1, 3)
         if kind == 'call' and not n['ctx'] and n['name'] in ('std::option::Option::unwrap', 'std::option::Option::expect') and n['args'] and _is_pop(strip(n['args'][0])):
             pops = min(pops + 1, 3)
+        if kind == 'assign' and n['lhs'][0] == 'local' and not n['ctx']:
+            lid = n['lhs'][1]
+            r0 = strip(n['rhs'])
+            par = 0
+            while r0[0] == 'un' and r0[1] == 'Not':
+                r0 = strip(r0[2])
+                par ^= 1
+            nb = None
+            if const_bool(r0) is not None:
+                nb = (lid, 'c', (1 if const_bool(r0) else 0) ^ par)
+            elif r0[0] == 'call' and pred_call(r0) is not None:
+                nb = (lid, 'p', par)
+            elif r0[0] == 'field' and _last_field(r0) in flag_fields:
+                nb = (lid, 'f', _last_field(r0), par)
+            bools = tuple(sorted([b for b in bools if b[0] != lid] + ([nb] if nb else []), key=repr))
+        if kind == 'call' and not n['ctx'] and n.get('dest') and n['dest'][0] == 'local' and pred_call(n['value']) is not None and n['name'] in FN_CALLS:
+            lid = n['dest'][1]
+            bools = tuple(sorted([b for b in bools if b[0] != lid] + [(lid, 'p', 0)], key=repr))
         if kind == 'assign':
             f = _last_field(n['lhs'])
             if counter is not None and f == counter and strip(n['lhs'])[0] == 'field':
@@ -163,13 +228,13 @@ def summaries(g, counter=None, bound=None, bound_const=None, flag_fields=(), slo
         emit = min(emit, 3)
         lo = None if lo is None or lo < -LIM else lo
         hi = None if hi is None or hi > LIM else hi
-        return (lo, hi, k, pred, flags, sets, emit, other, comp, empty, bad, pops, pushes, subs, calls)
+        return (lo, hi, k, pred, flags, sets, emit, other, comp, empty, bad, pops, pushes, subs, calls, bools)
 
-    init = (init_lo, None, 0, None, (), (), 0, False, False, False, None, 0, 0, 0, 0)
+    init = (init_lo, None, 0, None, (), (), 0, False, False, False, None, 0, 0, 0, 0, ())
     reached, pred = explore(g, init, step)
     out = []
     for key in ret_states(g, reached):
-        lo, hi, k, p, flags, sets, emit, other, comp, empty, bad, pops, pushes, subs, calls = key[1]
+        lo, hi, k, p, flags, sets, emit, other, comp, empty, bad, pops, pushes, subs, calls, _bools = key[1]
         out.append(({'pops': pops, 'pushes': pushes, 'subs': subs, 'calls': calls, 'lo': lo, 'hi': hi, 'k': k, 'pred': p, 'flags': dict(flags), 'sets': dict(sets), 'emit': emit, 'other': other,
                      'complete': comp, 'empty': empty, 'bad': bad}, key))
     return out, pred
